@@ -648,3 +648,18 @@ PROPS["C10"] = dict(
     trusted_base=MIR_TB,
     mir=True,
 )
+
+
+PROPS["C28"] = dict(
+    title="Addresses and identifiers have lossless, network-bound text forms",
+    functions=["<radix_common::data::scrypto::model::NonFungibleLocalId as FromStr>::from_str (integer form and the "
+               "unknown-type rejection)", "is_canonically_formatted_integer"],
+    bounds="every ASCII string of length 0..=6 (quick) / 0..=8 (thorough) whose first byte is not '<', '[' or '{'",
+    outside="Bech32m addresses (polymod over ~60 characters), string / bytes / RUID local ids, global ids, Display and the "
+            "binary forms: ONLY the clause 'integer ids are accepted only in canonical decimal form' (and that other text "
+            "is rejected without panicking) is decided",
+    assumptions=["core's str::parse::<u64> as in the library model (optional '+', digits; validated every run by the "
+                 "self-test strings)", "string model: concrete length, symbolic ASCII bytes"],
+    trusted_base=MIR_TB,
+    mir=True,
+)
